@@ -151,6 +151,7 @@ class C06(Property):
         ops = []
         nops = rng.randint(8, 40)
         sloppy = rng.random() < 0.25          # undisciplined history (agreement only)
+        f11case = allow and rng.random() < 0.08   # explicit non-positive expiries (known finding F11)
         cf = [False, False]
         while len(ops) < nops:
             r = rng.random()
@@ -195,8 +196,8 @@ class C06(Property):
             elif r < 0.84:
                 row = db.get(p)
                 ds = [1, S, S + S // 2, 10 * S, S - 1, S + 1, 3 * S]
-                if allow and rng.random() < 0.3:
-                    ds = [0, -S, -5]
+                if f11case:
+                    ds = [0, -S, -5, S]
                 if row:
                     ops.append(["setex", p, row[0], row[1], rng.choice(ds)])
                 elif sloppy:
